@@ -109,6 +109,7 @@ package formula
 //@   requires scanFrame(s)
 //@   assigns s.pos, s.tokenFlags, owner(s).parseDiagnostics
 //@   panics never
+//@   ensures[C14,C02] lbf(s) == old(lbf(s))
 //@   ensures scanFrame(s) && s.pos >= old(s.pos) && nd(s) >= old(nd(s))
 //@   ensures old(s.pos) < s.end && isDigitCh(old(cur(s))) ==> s.pos > old(s.pos)
 //@   ensures[C12] s.pos == fragEnd(s.text, old(s.pos))
@@ -117,6 +118,7 @@ package formula
 //@   ensures[C12] !sepErr(s.text, old(s.pos), s.pos) ==> nd(s) == old(nd(s))
 //@   ensures[C12] sepFlag(s) == (old(sepFlag(s)) || hasSep(s.text, old(s.pos), s.pos))
 //@   loop 1: invariant scanFrame(s) && old(s.pos) <= start && start <= s.pos && 0 <= underlineStart && underlineStart <= s.pos
+//@           invariant[C14,C02] lbf(s) == old(lbf(s))
 //@           invariant nd(s) >= old(nd(s))
 //@           invariant[C12] fragEnd(s.text, s.pos) == fragEnd(s.text, old(s.pos))
 //@           invariant[C12] result.contents ++ stripF(s.text, start, s.pos) == stripF(s.text, old(s.pos), old(s.pos))
@@ -155,6 +157,7 @@ package formula
 //@   requires scanFrame(s) && !sepFlag(s)
 //@   assigns s.pos, s.tokenFlags, s.tokenValue, owner(s).parseDiagnostics
 //@   panics never
+//@   ensures[C14,C02] lbf(s) == old(lbf(s))
 //@   ensures scanFrame(s) && s.pos >= old(s.pos) && nd(s) >= old(nd(s))
 //@   ensures result0 == SK_NumberLiteral && result1 == s.tokenValue
 //@   ensures old(s.pos) < s.end && (isDigitCh(old(cur(s))) || old(cur(s)) == '.') ==> s.pos > old(s.pos)
@@ -165,6 +168,7 @@ package formula
 //@   ensures[C12] sepErr(s.text, old(s.pos), fragEnd(s.text, old(s.pos))) ==> errd(s)
 //@   ensures[C12] s.pos < s.end && idStartU(cur(s)) ==> errd(s)
 //@   cut 1: before (*Scanner).peekCheck
+//@           invariant[C14,C02] lbf(s) == old(lbf(s))
 //@           invariant scanFrame(s) && nd(s) >= old(nd(s)) && start == old(s.pos) && end@1 == s.pos && !old(sepFlag(s)) && start <= s.pos
 //@           invariant old(s.pos) < s.end && (isDigitCh(old(cur(s))) || old(cur(s)) == '.') ==> s.pos > old(s.pos)
 //@           invariant[C12] s.pos == dotEnd(s.text, fragEnd(s.text, start))
@@ -172,6 +176,7 @@ package formula
 //@           invariant[C12] decimalFragment == (s.pos > fragEnd(s.text, start) ? strip(s.text, fragEnd(s.text, start) + 1, s.pos) : "") && scientificFragment == ""
 //@           invariant[C12] sepErr(s.text, start, fragEnd(s.text, start)) ==> errd(s)
 //@   cut 2: before (*Scanner).checkForIdentifierStartAfterNumericLiteral
+//@           invariant[C14,C02] lbf(s) == old(lbf(s))
 //@           invariant scanFrame(s) && nd(s) >= old(nd(s)) && start == old(s.pos) && start <= s.pos
 //@           invariant old(s.pos) < s.end && (isDigitCh(old(cur(s))) || old(cur(s)) == '.') ==> s.pos > old(s.pos)
 //@           invariant[C12] s.pos == litEnd(s.text, start)
@@ -203,11 +208,13 @@ package formula
 //@   requires scanFrame(s)
 //@   assigns s.pos, s.tokenFlags, owner(s).parseDiagnostics
 //@   panics never
+//@   ensures[C14,C02] lbf(s) == old(lbf(s))
 //@   ensures scanFrame(s) && s.pos >= old(s.pos) && nd(s) >= old(nd(s))
 //@   ensures old(s.pos) < s.end && old(cur(s)) == 92 ==> result == "" && s.pos == old(s.pos) && s.tokenFlags == old(s.tokenFlags)
 //@   ensures allHexLower(result) && (scanAsManyAsPossible || len(result) <= max(count, 0))
 //@   ensures[C13] !canHaveSeparators && !scanAsManyAsPossible ==> s.pos == hexRun(s.text, old(s.pos), count) && len(result) == s.pos - old(s.pos) && hexValS(result) == hv(s.text, old(s.pos), s.pos) && nd(s) == old(nd(s))
 //@   loop 1: invariant scanFrame(s) && s.pos >= old(s.pos) && 0 <= underlineStart && underlineStart <= s.pos && nd(s) >= old(nd(s)) && (isPreviousTokenSeparator ==> underlineStart < s.pos)
+//@           invariant[C14,C02] lbf(s) == old(lbf(s))
 //@           invariant[C13] !canHaveSeparators && !scanAsManyAsPossible ==> hexRun(s.text, s.pos, count - len(valueChars)) == hexRun(s.text, old(s.pos), count) && len(valueChars) == s.pos - old(s.pos) && hexValS(valueChars) == hv(s.text, old(s.pos), s.pos) && nd(s) == old(nd(s)) && !isPreviousTokenSeparator
 //@           invariant old(s.pos) < s.end && old(cur(s)) == 92 ==> len(valueChars) == 0 && s.pos == old(s.pos) && !isPreviousTokenSeparator && s.tokenFlags == old(s.tokenFlags)
 //@           invariant allHexLower(valueChars) && (scanAsManyAsPossible || len(valueChars) <= max(count, 0))
@@ -218,6 +225,7 @@ package formula
 //@   requires scanFrame(s) && count <= 15
 //@   assigns s.pos, s.tokenFlags, owner(s).parseDiagnostics
 //@   panics never
+//@   ensures[C14,C02] lbf(s) == old(lbf(s))
 //@   ensures scanFrame(s) && s.pos >= old(s.pos) && nd(s) >= old(nd(s))
 //@   ensures old(s.pos) < s.end && old(cur(s)) == 92 ==> result == -1 && s.pos == old(s.pos) && s.tokenFlags == old(s.tokenFlags)
 //@   ensures[C13] !canHaveSeparators ==> s.pos == hexRun(s.text, old(s.pos), count) && nd(s) == old(nd(s)) && result == (s.pos > old(s.pos) ? hv(s.text, old(s.pos), s.pos) : -1) && (s.pos > old(s.pos) ==> result >= 0) && s.pos - old(s.pos) <= max(count, 0)
@@ -228,6 +236,7 @@ package formula
 //@   requires scanFrame(s) && numDigits <= 4
 //@   assigns s.pos, s.tokenFlags, owner(s).parseDiagnostics
 //@   panics never
+//@   ensures[C14,C02] lbf(s) == old(lbf(s))
 //@   ensures scanFrame(s) && s.pos >= old(s.pos) && nd(s) >= old(nd(s))
 //@   ensures[C13] s.pos == hexRun(s.text, old(s.pos), numDigits) && result == hexOut(s.text, old(s.pos), numDigits)
 //@   ensures[C13] s.pos == old(s.pos) ==> errd(s)
@@ -251,6 +260,7 @@ package formula
 //@   requires scanFrame(s) && s.pos < s.end
 //@   assigns s.pos, s.tokenFlags, owner(s).parseDiagnostics
 //@   panics never
+//@   ensures[C14,C02] lbf(s) == old(lbf(s))
 //@   ensures scanFrame(s) && s.pos > old(s.pos) && nd(s) >= old(nd(s))
 //@   ensures[C13] old(s.pos) + 1 >= s.end || !isCont(c1(s.text, old(s.pos))) ==> s.pos == escNext(s.text, old(s.pos)) && result == escOut(s.text, old(s.pos))
 //@   defines old(s.pos) + 1 < s.end && isCont(c1(s.text, old(s.pos))) ==> s.pos == contNext(s.text, old(s.pos)) && result == contOut(s.text, old(s.pos))
@@ -270,10 +280,12 @@ package formula
 //@   requires scanFrame(s) && s.pos < s.end
 //@   assigns s.pos, s.tokenFlags, owner(s).parseDiagnostics
 //@   panics never
+//@   ensures[C14,C02] lbf(s) == old(lbf(s))
 //@   ensures scanFrame(s) && s.pos > old(s.pos) && nd(s) >= old(nd(s))
 //@   ensures[C13] result == strV(s.text, old(bodyAt(s)), old(bodyAt(s)), old(cur(s)))
 //@   ensures[C13] !strG(s.text, old(bodyAt(s)), old(cur(s))) ==> errd(s)
 //@   loop 1: invariant scanFrame(s) && old(s.pos) < start && start <= s.pos && nd(s) >= old(nd(s)) && quote == old(cur(s))
+//@           invariant[C14,C02] lbf(s) == old(lbf(s))
 //@           invariant[C13] contents.contents ++ strV(s.text, start, s.pos, quote) == strV(s.text, old(bodyAt(s)), old(bodyAt(s)), quote)
 //@           invariant[C13] strG(s.text, s.pos, quote) == strG(s.text, old(bodyAt(s)), quote)
 //@           decreases s.end - s.pos
@@ -304,6 +316,9 @@ package formula
 // run of such characters that starts at p. No identifier-start character is white space (the
 // ES5 table facts below are ground-evaluated on the table).
 //@ spec isWS(c int) bool := c == 32 || c == 9 || c == 11 || c == 12 || c == 160 || c == 5760 || (c >= 8192 && c <= 8203) || c == 8239 || c == 8287 || c == 12288 || c == 65279
+//@ spec lbf(s *Scanner) bool := s.tokenFlags & TF_PrecedingLineBreak != 0
+// trivLB(t, p): the run of trivia that starts at p contains a line break
+//@ spec rec trivLB(t string, p int) bool := (p >= 0 && p < len(t) && isLB(urune(t[p:]))) ? true : ((p >= 0 && p < len(t) && isWS(urune(t[p:]))) ? trivLB(t, p + usize(t[p:])) : false)
 //@ spec rec triv(t string, p int) int := (p >= 0 && p < len(t) && (isWS(urune(t[p:])) || isLB(urune(t[p:])))) ? triv(t, p + usize(t[p:])) : p
 //@ globalfact !inTable(160, unicodeES5IdentifierStart) && !inTable(5760, unicodeES5IdentifierStart) && !inTable(8192, unicodeES5IdentifierStart) && !inTable(8193, unicodeES5IdentifierStart) && !inTable(8194, unicodeES5IdentifierStart) && !inTable(8195, unicodeES5IdentifierStart) && !inTable(8196, unicodeES5IdentifierStart) && !inTable(8197, unicodeES5IdentifierStart) && !inTable(8198, unicodeES5IdentifierStart) && !inTable(8199, unicodeES5IdentifierStart) && !inTable(8200, unicodeES5IdentifierStart) && !inTable(8201, unicodeES5IdentifierStart) && !inTable(8202, unicodeES5IdentifierStart) && !inTable(8203, unicodeES5IdentifierStart) && !inTable(8239, unicodeES5IdentifierStart) && !inTable(8287, unicodeES5IdentifierStart) && !inTable(12288, unicodeES5IdentifierStart) && !inTable(65279, unicodeES5IdentifierStart) && !inTable(8232, unicodeES5IdentifierStart) && !inTable(8233, unicodeES5IdentifierStart) && !inTable(133, unicodeES5IdentifierStart)
 
@@ -327,6 +342,8 @@ package formula
 //@   ensures s.token == SK_EndOfFile ==> s.pos == s.end
 //@   ensures[C01,C14] isIdTok(s.token) ==> len(s.tokenValue) > 0
 //@   ensures[C14] s.tokenPos == triv(s.text, old(s.pos))
+//@   ensures[C14,C02] lbf(s) == trivLB(s.text, old(s.pos))
+//@   ensures[C14,C15] s.tokenPos < s.end && hexPrefix(s.text, s.tokenPos) ==> s.token == SK_NumberLiteral && s.pos >= s.tokenPos + 2 && hasPrefix(s.tokenValue, "0x")
 //@   ensures[C14] isIdTok(s.token) ==> s.tokenValue == s.text[s.tokenPos:s.pos]
 //@   ensures[C14] isIdTok(s.token) ==> !(s.pos < s.end && idPartU(runeAt(s.text, s.pos)))
 //@   ensures[C14] isIdTok(s.token) ==> idStartU(runeAt(s.text, s.tokenPos))
@@ -339,10 +356,12 @@ package formula
 //@   ensures[C12] s.tokenPos < s.end && numStart(s.text, s.tokenPos) && (litBad(s.text, s.tokenPos) || (s.pos < s.end && idStartU(cur(s)))) ==> errd(s)
 //@   loop 1: invariant sbase(s) && cbok(s) && s.startPos == old(s.pos) && s.startPos <= s.pos && nd(s) >= old(nd(s)) && !sepFlag(s)
 //@           invariant[C14] triv(s.text, s.pos) == triv(s.text, old(s.pos))
+//@           invariant[C14,C02] (lbf(s) || trivLB(s.text, s.pos)) == trivLB(s.text, old(s.pos))
 //@           decreases s.end - s.pos
 //@   loop 2: invariant scanFrame(s) && s.startPos == old(s.pos) && nd(s) >= old(nd(s)) && s.tokenPos < s.pos
 //@           invariant tar@L2 == -1 || (s.pos <= tar@L2 && tar@L2 <= s.end)
 //@           invariant[C14] idStartU(runeAt(s.text, s.tokenPos)) && s.tokenPos == triv(s.text, old(s.pos))
+//@           invariant[C14,C02] lbf(s) == trivLB(s.text, old(s.pos))
 //@           invariant[C14] tar@L2 < 0 ==> !(s.pos < s.end && idPartU(runeAt(s.text, s.pos)))
 //@           invariant[C12,C13,C14] s.tokenPos < s.end && s.text[s.tokenPos] != 34 && s.text[s.tokenPos] != 39 && !numStart(s.text, s.tokenPos) && !isOpCh(s.text[s.tokenPos])
 //@           decreases tar@L2 >= 0 ? s.end - tar@L2 + 1 : 0
@@ -1265,7 +1284,7 @@ package formula
 //@   decreases expr, 2
 //@   ensures[C03] result1 != nil ==> result0 == nil
 //@   ensures wfv(result0) && rpost(r)
-//@   ensures[C06] errOf(old(world), expr.Condition) != nil ==> result1 != nil && world == step(old(world), expr.Condition)
+//@   ensures[C06,C07,C03] errOf(old(world), expr.Condition) != nil ==> result1 != nil && world == step(old(world), expr.Condition)
 //@   ensures[C06] errOf(old(world), expr.Condition) == nil && truthy(valOf(old(world), expr.Condition)) ==> world == step(step(old(world), expr.Condition), expr.WhenTrue) && result1 == errOf(step(old(world), expr.Condition), expr.WhenTrue) && (result1 == nil ==> result0 == valOf(step(old(world), expr.Condition), expr.WhenTrue))
 //@   ensures[C06] errOf(old(world), expr.Condition) == nil && !truthy(valOf(old(world), expr.Condition)) ==> world == step(step(old(world), expr.Condition), expr.WhenFalse) && result1 == errOf(step(old(world), expr.Condition), expr.WhenFalse) && (result1 == nil ==> result0 == valOf(step(old(world), expr.Condition), expr.WhenFalse))
 
@@ -1317,7 +1336,7 @@ package formula
 //@   panics never
 //@   decreases expr, 2
 //@   ensures wfv(result0) && rpost(r)
-//@   ensures[C07] expr.Operator.Token != SK_Equals && errOf(old(world), expr.Left) != nil ==> result1 != nil && world == step(old(world), expr.Left)
+//@   ensures[C07,C03] expr.Operator.Token != SK_Equals && errOf(old(world), expr.Left) != nil ==> result1 != nil && world == step(old(world), expr.Left)
 //@   ensures[C07] expr.Operator.Token != SK_Equals && errOf(old(world), expr.Left) == nil ==> world == step(step(old(world), expr.Left), expr.Right)
 //@   ensures[C07] expr.Operator.Token != SK_Equals && errOf(old(world), expr.Left) == nil && errOf(step(old(world), expr.Left), expr.Right) != nil ==> result1 != nil
 //@   ensures[C06] expr.Operator.Token == SK_AmpersandAmpersand && errOf(old(world), expr.Left) == nil && errOf(step(old(world), expr.Left), expr.Right) == nil ==> result1 == nil && result0 == (truthy(valOf(old(world), expr.Left)) ? valOf(step(old(world), expr.Left), expr.Right) : valOf(old(world), expr.Left))
@@ -1829,7 +1848,7 @@ package formula
 //@   ensures[C03] result1 != nil ==> result0 == nil
 //@   ensures wfv(result0) && rpost(r)
 //@   ensures world == step(old(world), expr.Expression)
-//@   ensures[C16] errOf(old(world), expr.Expression) != nil ==> result1 != nil
+//@   ensures[C16,C07,C03] errOf(old(world), expr.Expression) != nil ==> result1 != nil
 //@   ensures[C16] errOf(old(world), expr.Expression) == nil && isNullAny(valOf(old(world), expr.Expression)) ==> (expr.Assert ? result1 != nil : (result1 == nil && result0 == nil))
 //@   ensures[C16] errOf(old(world), expr.Expression) == nil && strMap(valOf(old(world), expr.Expression)) ==> result1 == nil && result0 == (isNullAny(ptr(valOf(old(world), expr.Expression), map[string]interface{})[expr.Name.Value]) ? nil : ptr(valOf(old(world), expr.Expression), map[string]interface{})[expr.Name.Value])
 
@@ -1992,7 +2011,7 @@ package formula
 //@   panics never
 //@   decreases expr, 2
 //@   ensures wfv(result0) && rpost(r)
-//@   ensures[C11] errOf(old(world), expr.Expression) != nil ==> result1 != nil && world == step(old(world), expr.Expression)
+//@   ensures[C11,C07,C03] errOf(old(world), expr.Expression) != nil ==> result1 != nil && world == step(old(world), expr.Expression)
 //@   ensures[C11] errOf(old(world), expr.Expression) == nil && !named(expr.Expression) ==> result1 != nil && world == step(old(world), expr.Expression)
 //@   ensures[C11] errOf(old(world), expr.Expression) == nil && named(expr.Expression) && argsOK(expr, old(world)) ==> (result1 != nil && world == Wn(expr, old(world))) || calledOnce(Wn(expr, old(world)), world, valOf(old(world), expr.Expression))
 //@   ensures[C11] errOf(old(world), expr.Expression) == nil && named(expr.Expression) && argsOK(expr, old(world)) && misfit(expr, valOf(old(world), expr.Expression)) ==> result1 != nil && world == Wn(expr, old(world))
